@@ -9,9 +9,10 @@ plus a malformed stream.  Two kinds of Coq cases:
 
 * model cases    (one per class x history, all runs): observation == faithful model;
 * property cases (one per assoc run whose observation violates the property's postcondition):
-                 fail by construction, their signature is what known_findings.d/C12.json
-                 matches (K3a, K3b).  The model case re-evaluates the postcondition in Coq and
-                 fails when the harness did not flag exactly the violating runs.
+                 fail by construction and carry a case signature for the known-findings matcher
+                 (K3a / K3b were found this way; both are repaired in /repo now, so none is
+                 expected).  The model case re-evaluates the postcondition in Coq and fails
+                 when the harness did not flag exactly the violating runs.
 """
 from __future__ import annotations
 
@@ -45,7 +46,8 @@ RULE = ("seeded random class specifications of the C01 generator (per field: def
         "delete}; evolve with every subset of the init aliases (all subsets up to 4 init fields in the "
         "thorough tier, sampled beyond / in quick) x {validators on/off, a callback raising, NOTHING as "
         "value} + malformed keys {private name, unknown, init=False field}; assoc (non-exception "
-        "classes) with subsets of the field names + malformed {unknown, count, index, __len__, mixed}; "
+        "classes) with subsets of the field names + malformed {unknown, count, index, __len__, __init__, "
+        "_attrs_cached_hash, mixed}; "
         "compared: outcome class, same class, new object, every field of the result and of the original "
         "afterwards, hash-cache state, BaseException.args, callback trace, frozenness probe, "
         "hash(result)==hash(instance with the same fields and empty cache).  A case = one (class, "
@@ -484,8 +486,33 @@ def run_assoc(cut, o, run):
 # case assembly
 
 
+def warm_bases(cut):
+    """evolve / assoc an instance of every ancestor first, base-most first: anything the functions
+    remember per class must not leak into a subclass.  Part of every case, so that replays do it too."""
+    chain = []
+    c = cut.spec["base"]
+    while c is not None:
+        chain.append(c)
+        c = c.spec["base"]
+    for c in reversed(chain):
+        try:
+            REC.cls = c.cls
+            REC.reset(None)
+            sg = g.signature_of(c.cls)
+            x = c.cls(**{n: Tok(0) for n, k, d in sg if not d})
+            attr.evolve(x)
+            if not issubclass(c.cls, BaseException):
+                with warnings.catch_warnings():
+                    warnings.simplefilter("ignore")
+                    attr.assoc(x)
+        except Exception:
+            pass
+    REC.reset(None)
+
+
 def assemble(cut, plan, only=None, prop_mode=False):
     """Run every run of the plan on a freshly prepared original.  Returns (model case, property cases)."""
+    warm_bases(cut)
     spec_t = g.enc_spec(cut)
     inh = inherits_pair(cut)
     runs_t, seen, props = [], [], []
@@ -654,7 +681,7 @@ def plans_for(cut, rng, tier):
                 rng.shuffle(ch)
                 runs.append({"op": "assoc", "changes": ch})
             if rich or any(p[0] == "h" for p in hist):
-                bad = ["no_such_name", "count", "index", "__len__"]
+                bad = ["no_such_name", "count", "index", "__len__", "__init__", CACHE]
                 for nm in (bad if rich else [rng.choice(bad)]):
                     runs.append({"op": "assoc", "changes": [(nm, tk())]})
                 if names:
